@@ -174,6 +174,22 @@ func init() {
 					add(cacheIn{Cache: true, Case: c, Thr: thr, Seed: 12, MissPct: 30, DropPct: 30})
 				}
 			}
+			// dedicated: Skip policy, an unparseable conjunction immediately before conjunctions that are served from the
+			// cache on the warm builds (and one after them): the skipped one must not disturb its siblings
+			for _, kind := range []string{"kgroups", "compact"} {
+				bad := eConj{{F: 3, Inc: true, V: TV{T: "other:map"}}}
+				c := eCase{Kind: kind, Policy: "skip"}
+				c.Docs = []eDoc{
+					{ID: 1, Cons: []eConj{bad, {{F: 0, Inc: true, V: longInts(5)}}, {{F: 0, Inc: false, V: longInts(4)}, {F: 3, Inc: true, V: tvStr("x")}}, bad, {{F: 3, Inc: true, V: tvStr("y")}}}},
+					{ID: 2, Cons: []eConj{{{F: 0, Inc: true, V: longInts(6)}}, bad}},
+				}
+				for _, a := range []int64{0, 3, 4, 5, 9} {
+					c.Queries = append(c.Queries, eQuery{A: []eAssign{{F: 0, V: tvInt("int", a)}}}, eQuery{A: []eAssign{{F: 0, V: tvInt("int", a)}, {F: 3, V: tvStr("x")}}})
+				}
+				c.Queries = append(c.Queries, eQuery{A: []eAssign{{F: 3, V: tvStr("y")}}})
+				add(cacheIn{Cache: true, Case: c, Thr: 2, Seed: 51, MissPct: 0, DropPct: 0})
+				add(cacheIn{Cache: true, Case: c, Thr: 2, Seed: 52, MissPct: 0, DropPct: 0, Reuse: true})
+			}
 			// dedicated: a provider that keeps the very slice it is handed, and several cached conjunctions whose records
 			// have the same encoded length (anything serialised into a builder-owned buffer would be overwritten)
 			for _, kind := range []string{"kgroups", "compact"} {
